@@ -1014,6 +1014,37 @@ fn main() {
         }
         // 3. random walks
         let mut r = Rng(0x9E3779B97F4A7C15 ^ seed.wrapping_mul(0x2545F4914F6CDD1D));
+        // 3a. random continuations of larger prebuilt shapes (deep chain, wide star, 3-level tree, top-level chain)
+        let shapes: Vec<(usize, &str)> = vec![
+            (6, "new;new;new;new;new;new; checked_append 0 1; checked_append 1 2; checked_append 2 3; checked_append 3 4; checked_append 4 5"),
+            (7, "new;new;new;new;new;new;new; checked_append 0 1; checked_append 0 2; checked_append 0 3; checked_append 0 4; checked_append 0 5; checked_append 0 6"),
+            (9, "new;new;new;new;new;new;new;new;new; checked_append 0 1; checked_append 0 2; checked_append 0 3; checked_append 1 4; checked_append 1 5; checked_append 4 6; checked_append 2 7; checked_append 7 8"),
+            (5, "new;new;new;new;new; checked_insert_after 0 1; checked_insert_after 1 2; checked_insert_after 2 3; checked_insert_after 3 4"),
+            (8, "new;new;new;new;new;new;new;new; checked_append 0 1; checked_append 0 2; checked_append 1 3; checked_append 1 4; checked_append 2 5; checked_append 2 6; checked_append 6 7; remove 0"),
+        ];
+        let shaped_budget = budget / 4;
+        let t1 = Instant::now();
+        'shaped: loop {
+            for (n0, shape) in &shapes {
+                let mut ops = parse_ops(shape);
+                let mut n = *n0;
+                let len = 3 + r.below(12);
+                for _ in 0..len {
+                    let op = random_op(&mut r, n.min(10));
+                    if matches!(op, Op::New | Op::AppendValue(_)) {
+                        n += 1;
+                    }
+                    ops.push(op);
+                }
+                let o = run_seq(&ops, &heartbeat, true);
+                nseq += 1;
+                nops += ops.len();
+                record(&ops, o, &mut found);
+                if t1.elapsed() > shaped_budget {
+                    break 'shaped;
+                }
+            }
+        }
         while t0.elapsed() < budget {
             let len = 6 + r.below(14);
             let mut ops = vec![Op::New, Op::New];
